@@ -132,6 +132,46 @@ def idleLoop (idle : Nat) (lag : Nat → Nat) : Nat → Nat → List Nat → Nat
     -- deadline := now + idle; the message is complete at `a`
     if a > now + idle then 0 else 1 + idleLoop idle lag (j + 1) (Nat.max now a + lag j) as
 
+/-- the loop with the `continue` branch: the reader of message `j` learns of its first octet at `p` and has
+    the whole message at `a`; `busy d` = `concurrent.Load() > 0` at time `d` (any behaviour of the handlers).
+    When the deadline `d = now + idle` passes before the message is whole: nothing of it was read (`n == 0`,
+    i.e. `p > d`) and queries are in flight ⇒ `continue` (the loop comes round at `d`, the deadline is re-armed);
+    otherwise the connection is closed — in particular a partial message (`p ≤ d`) still times out.
+    `fuel` bounds the number of passes (the model's only artefact). -/
+def idleLoopB (idle : Nat) (busy : Nat → Bool) (lag : Nat → Nat) : Nat → Nat → Nat → List (Nat × Nat) → Nat
+  | 0, _, _, _ => 0
+  | _ + 1, _, _, [] => 0
+  | fuel + 1, j, now, (p, a) :: as =>
+    if a ≤ now + idle then 1 + idleLoopB idle busy lag fuel (j + 1) (Nat.max now a + lag j) as
+    else if p > now + idle && busy (now + idle) then idleLoopB idle busy lag fuel j (now + idle) ((p, a) :: as)
+    else 0
+
+/-- a client that either keeps the pace or — while it still waits for answers (`busy` at every instant since
+    the previous message) — sends its next message in one piece, whenever it likes -/
+def pacedB (idle : Nat) (busy : Nat → Bool) : Nat → List Nat → Prop
+  | _, [] => True
+  | prev, a :: as => (a ≤ prev + idle ∨ ∀ t, prev ≤ t → t < a → busy t = true) ∧ pacedB idle busy a as
+
+/-- passes of the loop that suffice for `idleLoopB` on whole messages arriving at `arr` -/
+def fuelFor : Nat → List Nat → Nat
+  | _, [] => 1
+  | now, a :: as => (a - now) + 1 + fuelFor 0 as
+
+/-- the gnet idle timer with its new callback: when it fires (`idle` after the last reset) and queries are in
+    flight it re-arms itself, otherwise it closes the connection; `OnTraffic` resets it. -/
+def gnetIdleB (idle : Nat) (busy : Nat → Bool) : Nat → Nat → List Nat → Nat
+  | 0, _, _ => 0
+  | _ + 1, _, [] => 0
+  | fuel + 1, last, t :: ts =>
+    if t < last + idle then 1 + gnetIdleB idle busy fuel (Nat.max last t) ts
+    else if busy (last + idle) then gnetIdleB idle busy fuel (last + idle) (t :: ts)
+    else 0
+
+/-- every pause is shorter than `idle`, or the connection has queries in flight during the whole pause -/
+def gapsBelowB (idle : Nat) (busy : Nat → Bool) : Nat → List Nat → Prop
+  | _, [] => True
+  | prev, t :: ts => (t < prev + idle ∨ ∀ u, prev ≤ u → u ≤ t → busy u = true) ∧ gapsBelowB idle busy t ts
+
 /-- what a client has to respect: every message is complete at most `idle` after the previous one was
     (`prev` = previous completion; initially the time the connection was accepted) -/
 def paced (idle : Nat) : Nat → List Nat → Prop
@@ -258,7 +298,11 @@ def run (case impl : String) : String × String :=
     let stream := streamOf frs
     match splitSegs segN stream with
     | none => ("bad-case", "na")
-    | some segs =>
+    | some segsAll =>
+      -- `pclose=<n>`: after the first n segments (ending inside a frame, nothing in flight) the client pauses for
+      -- longer than the idle timeout: the listener closes the connection (see `idleLoopB`: `p ≤ d < a`)
+      let pclose := kvNat toks "pclose"
+      let segs := match pclose with | some n => segsAll.take n | none => segsAll
       let sent := segs.flatten
       let pp := hold == 2
       let wave := hold == 3
@@ -279,8 +323,12 @@ def run (case impl : String) : String × String :=
       match o with
       | none => ("bad-case", "na")
       | some o =>
+        let o := if pclose.isSome then { o with closed := true } else o
         let judge (o : Obs) : Bool :=
-          if proto == "gnet" then Gnet.spec gc o
+          if pclose.isSome then
+            o.closed && (if proto == "gnet" then Gnet.spec gc { o with closed := false }
+                         else spec max sent { o with closed := false })
+          else if proto == "gnet" then Gnet.spec gc o
           else if pp then ppSpec sent o
           else if wave then specS max (waveDone k1) sent o
           else spec max sent o
